@@ -13,6 +13,7 @@ open Verif.AsyncProto
 def Inv (s : St) : Prop :=
   s.got + s.avail = s.sent ∧
   s.armed ≤ 1 ∧ s.queued ≤ 1 ∧ s.waiting ≤ 1 ∧ s.wantArm ≤ 1 ∧ s.woken ≤ 1 ∧ s.alive ≤ 1 ∧ s.nonblock ≤ 1 ∧ s.wasNonblock ≤ 1 ∧
+  s.stale ≤ 1 ∧ (s.waiting = 1 → s.stale = 0) ∧
   (s.waiting = 1 → s.armed = 1) ∧
   (s.waiting = 1 → s.avail ≥ 1 → s.queued = 1) ∧
   s.waiting + s.wantArm + s.woken ≤ 1 ∧
@@ -35,7 +36,7 @@ theorem inv_step (s s' : St) (a : Act) (h : Inv s) (hs : step s a = some s') : I
   unfold Inv at h ⊢
   cases a <;> simp only [step] at hs <;>
   (repeat' split at hs) <;> simp only [Option.some.injEq, reduceCtorEq] at hs <;> (try subst hs) <;> simp only <;>
-  (refine ⟨?_, ?_, ?_, ?_, ?_, ?_, ?_, ?_, ?_, ?_, ?_, ?_, ?_, ?_⟩) <;> closeArith
+  (refine ⟨?_, ?_, ?_, ?_, ?_, ?_, ?_, ?_, ?_, ?_, ?_, ?_, ?_, ?_, ?_, ?_⟩) <;> closeArith
 
 theorem inv_reach (was : Nat) (hw : was ≤ 1) (s : St) (h : Reach was s) : Inv s := by
   induction h with
@@ -57,8 +58,16 @@ theorem no_lost_wake (was : Nat) (hw : was ≤ 1) (s : St) (h : Reach was s) (hw
   have ha : s.armed = 1 := by omega
   have hq : s.queued = 1 := by omega
   have hal : s.alive = 1 := by omega
-  refine ⟨ha, hq, { s with queued := 0, armed := 0, woken := 1, waiting := 0 }, ?_, rfl⟩
-  simp only [step, hal, hq, ha, hr, hwait, and_self, if_true]
+  have hst : s.stale = 0 := by omega
+  refine ⟨ha, hq, { s with queued := 0, armed := 0, stale := 0, woken := 1, waiting := 0 }, ?_, rfl⟩
+  simp only [step, hal, hq, ha, hr, hwait, hst, and_self, if_true]
+
+/-- **The waker that is woken is the last one the operation was polled with**: while the task is parked,
+    the waker stored in the dispatcher is its own — also when the same wait was polled under another
+    waker first (`probeArm`) and the fd was not ready in between. -/
+theorem parked_waker_is_current (was : Nat) (hw : was ≤ 1) (s : St) (h : Reach was s) (hwait : s.waiting = 1) :
+    s.stale = 0 := by
+  have hi := inv_reach was hw s h; unfold Inv at hi; omega
 
 /-- a parked task is always armed (so later progress of the peer queues the registration) -/
 theorem parked_is_armed (was : Nat) (hw : was ≤ 1) (s : St) (h : Reach was s) (hwait : s.waiting = 1) :
@@ -85,6 +94,10 @@ theorem flags_and_registration (was : Nat) (hw : was ≤ 1) (s : St) (h : Reach 
 /-- the peer writes between the task's WouldBlock and its arming: the MOD queues the registration -/
 example : (run { wasNonblock := 0 } [.taskRun, .taskBlock, .peerWrite 5, .taskArm, .loopReport, .taskRun, .taskRead 3, .taskRead 3]).map
     (fun s => (s.got, s.avail, s.sent, s.woken)) = some (5, 0, 5, 0) := by decide
+
+/-- the wait is polled under a throw-away waker, then under the task's own: the peer's progress wakes the task -/
+example : (run { wasNonblock := 0 } [.taskRun, .taskBlock, .probeArm, .taskArm, .peerWrite 2, .loopReport]).map
+    (fun s => (s.woken, s.stale, s.waiting)) = some (1, 0, 0) := by decide
 
 example : (run { wasNonblock := 0 } [.taskRun, .taskBlock, .taskArm, .dropAdapter]).map (fun s => (s.nonblock, s.armed)) = some (0, 0) := by
   decide
